@@ -226,3 +226,12 @@ def run(ctx):
     C06.r6_admission(ctx, 'C16.R5b')
     C06.r1_wake_capability(ctx, 'C16.R5c')
     r6_capacity_expr(ctx)
+
+
+_run_rules = run
+
+
+def run(ctx):
+    _run_rules(ctx)
+    from .. import boundaries
+    boundaries.check(ctx, 'C16.RB', 'C16')
